@@ -128,7 +128,22 @@ pub fn gen_string(rng: &mut Rng) -> String {
     gen_string_with(rng, true)
 }
 
+/// Strings that look like something else: legacy Haystack-3 JSON type prefixes ("s:", "n:", "r:" ...), Zinc / JSON
+/// literals and keywords, escape sequences written out as text. A codec must treat them as plain text.
+pub const LOOKALIKES: [&str; 44] = [
+    "s:", "s:hello", "n:12", "n:12 kW", "m:", "r:abc Dis", "u:http://x", "d:2020-01-01", "h:12:00:00", "t:2020-01-01T00:00:00Z UTC", "c:1,2", "x:T:v", "b:", "z:", "-:", "y:sym",
+    "NaN", "INF", "-INF", "M", "N", "NA", "R", "T", "F", "null", "true", "false", "2020-01-01", "12:00:00", "@ref", "^sym", "`uri`", "C(1,2)", "X(\"v\")", "ver:\"3.0\"", "<<", ">>",
+    "\\u0041", "\\n", "{\"_kind\":\"marker\"}", "_kind", "1e5", "5kW",
+];
+
 pub fn gen_string_with(rng: &mut Rng, controls: bool) -> String {
+    if rng.chance(1, 14) {
+        let mut s = rng.pick(&LOOKALIKES).to_string();
+        if rng.chance(1, 3) {
+            s.push_str(&gen_id(rng));
+        }
+        return s;
+    }
     let len = match rng.below(20) {
         0 => 0,
         1..=3 => 1,
@@ -472,6 +487,45 @@ pub fn gen_value(rng: &mut Rng, max_depth: usize) -> MVal {
     gen_value_b(rng, max_depth, &mut budget)
 }
 
+/// Wide (not deep) values: more than 128 siblings at one level, so a counter that should track nesting depth
+/// but tracks the number of values instead is noticed.
+pub fn gen_wide(rng: &mut Rng) -> MVal {
+    let n = 130 + rng.below(200);
+    match rng.below(4) {
+        0 => MVal::List((0..n).map(|_| gen_scalar(rng)).collect()),
+        1 => {
+            let mut d = MDict::new();
+            for i in 0..n {
+                d.insert(format!("k{i}"), if i % 7 == 0 { MVal::List(vec![gen_scalar(rng), MVal::Dict(MDict::new())]) } else { gen_scalar(rng) });
+            }
+            MVal::Dict(d)
+        }
+        2 => {
+            let cols: Vec<MCol> = (0..3).map(|c| MCol { name: format!("c{c}"), meta: MDict::new() }).collect();
+            let rows = (0..n)
+                .map(|_| {
+                    let mut r = MDict::new();
+                    for c in &cols {
+                        if !rng.chance(1, 6) {
+                            r.insert(c.name.clone(), if rng.chance(1, 8) { MVal::List(vec![gen_scalar(rng)]) } else { gen_scalar(rng) });
+                        }
+                    }
+                    r
+                })
+                .collect();
+            MVal::Grid(Box::new(MGrid { meta: MDict::new(), cols, rows }))
+        }
+        _ => {
+            // many small collections side by side
+            MVal::List((0..n).map(|i| match i % 3 {
+                0 => MVal::List(vec![gen_scalar(rng)]),
+                1 => MVal::Dict([("a".to_string(), gen_scalar(rng))].into_iter().collect()),
+                _ => MVal::Grid(Box::new(MGrid { meta: MDict::new(), cols: vec![MCol { name: "a".into(), meta: MDict::new() }], rows: vec![[("a".to_string(), gen_scalar(rng))].into_iter().collect()] })),
+            }).collect())
+        }
+    }
+}
+
 /// Names of the strata a value covers (for evidence and the non-triviality rule).
 pub fn strata_of(v: &MVal) -> Vec<&'static str> {
     let mut out: Vec<&'static str> = Vec::new();
@@ -574,6 +628,9 @@ pub fn string_classes(s: &str) -> Vec<&'static str> {
     }
     if s.chars().count() > 4096 {
         push("str:long");
+    }
+    if LOOKALIKES.iter().any(|l| s.starts_with(l)) {
+        push("str:lookalike");
     }
     out
 }
